@@ -23,7 +23,12 @@ import json
 from hypothesis import strategies as st
 
 import flowgen as fg
-from runner import hyp
+from runner import repo_frame
+
+# imported here (not lazily) so that the forked shard workers inherit the loaded modules
+from mitmproxy import exceptions
+from mitmproxy import flow as mflow
+from mitmproxy.io import FlowReader, FlowWriter, tnetstring
 
 PID = "C36"
 LEVEL = "exploration"
@@ -38,7 +43,7 @@ ASSUMPTIONS = ["flows are built through public constructors/attributes (flowgen.
 LEVEL_TEXT = ("exploration: randomised search over flow states of all five kinds and over mutated file contents; "
               "no exhaustiveness claim")
 LEVEL_NOTE = "trusts flowgen.build/observe (harness) and Python's float repr round trip"
-QUICK_N, THOROUGH_N = 40_000, 1_500_000
+QUICK_N, THOROUGH_N = 30_000, 1_200_000
 
 _IGNORE = ("live",)
 
@@ -81,10 +86,6 @@ def _field_of(diff):
 
 # ------------------------------------------------------------------------------------------------ part A
 def check_roundtrip(descs, ctx):
-    from mitmproxy import exceptions
-    from mitmproxy import flow as mflow
-    from mitmproxy.io import FlowReader, FlowWriter
-
     flows = [fg.build(d) for d in descs]
     buf = io.BytesIO()
     w = FlowWriter(buf)
@@ -217,7 +218,6 @@ def mutate_states(states, ops):
 
 
 def _enc_top(t):
-    from mitmproxy.io import tnetstring
     if isinstance(t, _Raw):
         return t.data
     if isinstance(t, dict) and any(isinstance(v, _Raw) for v in t.values()):
@@ -249,9 +249,6 @@ def mutate_bytes(data, ops):
 
 
 def check_reader(data, ctx, label):
-    from mitmproxy import exceptions
-    from mitmproxy import flow as mflow
-    from mitmproxy.io import FlowReader
     n = 0
     outcome = "ok"
     try:
@@ -263,7 +260,6 @@ def check_reader(data, ctx, label):
         outcome = "flowreadexc"
     except Exception as e:
         outcome = "other-exc"
-        from runner import repo_frame
         ctx.fail("reader-not-total:%s@%s" % (type(e).__name__, repo_frame(e)), "%s: %r on %d bytes %r..." % (label, e, len(data), data[:80]))
     ctx.nt(data, "B:%s:%s%s" % (label, outcome, ":flows" if n else ""))
 
@@ -324,7 +320,6 @@ def strategy(ctx):
 
 
 def check_case(case, ctx):
-    from mitmproxy.io import tnetstring
     mode = case["mode"]
     if mode == "roundtrip":
         check_roundtrip(case["flows"], ctx)
